@@ -96,18 +96,7 @@ func (r *Reader) validate() error {
 		}
 	}
 
-	// Check for at least one slide
-	hasSlide := false
-	for name := range fileMap {
-		if strings.HasPrefix(name, "ppt/slides/slide") && strings.HasSuffix(name, ".xml") {
-			hasSlide = true
-			break
-		}
-	}
-	if !hasSlide {
-		return fmt.Errorf("no slides found in presentation")
-	}
-
+	// Slides are located by parseSlides, which fails when there is none.
 	return nil
 }
 
@@ -148,23 +137,59 @@ func (r *Reader) parsePresentation() error {
 	return xml.Unmarshal(data, r.presentation)
 }
 
-// parseSlides parses all slide files.
-func (r *Reader) parseSlides() error {
-	// Find all slide files
-	slideFiles := make([]string, 0)
-	for _, f := range r.zipReader.File {
-		if strings.HasPrefix(f.Name, "ppt/slides/slide") && strings.HasSuffix(f.Name, ".xml") {
-			// Exclude relationship files
-			if !strings.Contains(f.Name, "_rels") {
-				slideFiles = append(slideFiles, f.Name)
-			}
-		}
+// declaredSlidePaths returns the slide parts in presentation order: the entries
+// of <p:sldIdLst>, each resolved through the presentation relationships to the
+// part it names. The file name of a slide part says nothing about its position
+// (reordering slides in PowerPoint rewrites only the list), and parts that the
+// list does not mention are not slides of the presentation. It returns nil when
+// the presentation does not declare its slides this way.
+func (r *Reader) declaredSlidePaths() []string {
+	if r.presentation == nil || r.presentation.SlideIdList == nil || r.presRels == nil {
+		return nil
 	}
 
-	// Sort slides by number
-	sort.Slice(slideFiles, func(i, j int) bool {
-		return extractSlideNumber(slideFiles[i]) < extractSlideNumber(slideFiles[j])
-	})
+	targets := make(map[string]string, len(r.presRels.Relationship))
+	for _, rel := range r.presRels.Relationship {
+		targets[rel.ID] = rel.Target
+	}
+
+	var paths []string
+	for _, sldID := range r.presentation.SlideIdList.SlideId {
+		target := targets[sldID.RID]
+		if target == "" {
+			continue
+		}
+		// Targets are relative to ppt/presentation.xml unless they start with "/".
+		if strings.HasPrefix(target, "/") {
+			paths = append(paths, path.Clean(target)[1:])
+		} else {
+			paths = append(paths, path.Join("ppt", target))
+		}
+	}
+	return paths
+}
+
+// parseSlides parses all slide files.
+func (r *Reader) parseSlides() error {
+	// Slides in the order of the presentation's slide list
+	slideFiles := r.declaredSlidePaths()
+
+	if len(slideFiles) == 0 {
+		// No usable slide list: fall back to the conventional part names,
+		// ordered by the number in the file name.
+		for _, f := range r.zipReader.File {
+			if strings.HasPrefix(f.Name, "ppt/slides/slide") && strings.HasSuffix(f.Name, ".xml") {
+				// Exclude relationship files
+				if !strings.Contains(f.Name, "_rels") {
+					slideFiles = append(slideFiles, f.Name)
+				}
+			}
+		}
+
+		sort.Slice(slideFiles, func(i, j int) bool {
+			return extractSlideNumber(slideFiles[i]) < extractSlideNumber(slideFiles[j])
+		})
+	}
 
 	r.slides = make([]*Slide, 0, len(slideFiles))
 
